@@ -235,7 +235,7 @@ var regressPairs = []pairCase{
 	{A: "0.1", B: "0.10000000000000000001", Intent: "different"}, {A: "1", B: "1.0000000000000000001", Intent: "different"},
 	{A: "1.7976931348623157e308", B: "1.7976931348623158e308", Intent: "different"}, {A: "1.7976931348623159e308", B: "1.797693134862316e308", Intent: "different"},
 	{A: "123456789012345678901234567890", B: "123456789012345678901234567890.0", Intent: "equal"}, {A: "123456789012345678901234567891", B: "12345678901234567890123456789e1", Intent: "different"},
-	{A: "5e-324", B: "4e-324", Intent: "different"}, {A: "1e5000", B: "10e4999", Intent: "equal"}, {A: "1e-5000", B: "0.1e-4999", Intent: "equal"},
+	{A: "5e-324", B: "4e-324", Intent: "different"}, {A: "1e5000", B: "10e4999", Intent: "equal"}, {A: "1e1000001", B: "10e1000000", Intent: "equal"}, {A: "1e10000000", B: "1.0e10000000", Intent: "equal"}, {A: "1e-1000001", B: "2e-1000001", Intent: "different"}, {A: "1e4294967296", B: "1e0", Intent: "different"}, {A: "1e-5000", B: "0.1e-4999", Intent: "equal"},
 	{A: "1e1", B: "1e01", Intent: "equal"}, {A: "1e1", B: "1E+0001", Intent: "equal"}, {A: "10", B: "1e1", Intent: "equal"}, {A: "-10", B: "-1e1", Intent: "equal"},
 	{A: `"1"`, B: "1", Intent: "different"}, {A: "[]", B: "{}", Intent: "different"}, {A: "null", B: "false", Intent: "different"}, {A: "null", B: "0", Intent: "different"},
 	{A: "null", B: `""`, Intent: "different"}, {A: "null", B: `"null"`, Intent: "different"}, {A: "true", B: `"true"`, Intent: "different"}, {A: "false", B: "0", Intent: "different"},
@@ -253,7 +253,7 @@ var regressPairs = []pairCase{
 func TestPairs(t *testing.T) {
 	u := vk.New(t, "C18", "pairs")
 	defer u.Close()
-	u.Set("exponent_range", "generated exponents stay within +-5000 (Equal's exact path is math/big.Rat, which refuses exponents beyond 1e6)")
+	u.Set("exponent_range", "generated exponents reach +-9e14, with the neighbourhood of 1e6 (where math/big.Rat stops reading exponents) and of 2^31 / 2^32 drawn on purpose")
 	vk.Rapid(u, vk.N(1_000_000, 40_000_000), regressPairs, drawPair, func(c pairCase) *vk.Finding {
 		if c.Label != "" {
 			u.Label(c.Label)
